@@ -560,6 +560,8 @@ enum Mode {
     /// k junk rows in front and two behind, `try_into_binary`, the BinaryArray *sliced* to the
     /// real rows (first offset != 0, values buffer longer than the last offset), `from_binary`
     Bsl(usize),
+    /// like `Bsl` but junk rows only in front (the values buffer ends with the last row)
+    Bsf(usize),
     /// rows [0,k) pushed one by one as `RowParser::parse`d rows into `empty_rows`, rest appended
     Psh(usize),
 }
@@ -586,6 +588,7 @@ fn parse_case(line: &str) -> PR<Case> {
         "clr" => Mode::Clr,
         m if m.starts_with("bin") => Mode::Bin(num(&m[3..])?),
         m if m.starts_with("bsl") => Mode::Bsl(num(&m[3..])?),
+        m if m.starts_with("bsf") => Mode::Bsf(num(&m[3..])?),
         m if m.starts_with("psh") => Mode::Psh(num(&m[3..])?),
         m => return Err(format!("bad mode {}", m)),
     };
@@ -789,7 +792,7 @@ struct Gen {
     ivs: Vec<Vec<i64>>,
 }
 
-const LENS: [usize; 23] = [0, 1, 7, 8, 9, 15, 16, 17, 23, 24, 25, 31, 32, 33, 63, 64, 65, 95, 96, 97, 127, 128, 129];
+const LENS: [usize; 30] = [0, 1, 7, 8, 9, 11, 12, 13, 15, 16, 17, 23, 24, 25, 31, 32, 33, 63, 64, 65, 95, 96, 97, 127, 128, 129, 160, 255, 256, 257];
 
 impl Gen {
     fn new(rng: Rng) -> Self {
@@ -2033,7 +2036,8 @@ fn compute_rows(conv: &RowConverter, case: &Case, mode: &Mode, lay: &mut Lay, fa
             conv.append(&mut rows, &mk_arrays(case, k, n, lay, None, fails))?;
             Ok(rows)
         }
-        Mode::Bsl(k) => {
+        Mode::Bsl(k) | Mode::Bsf(k) => {
+            let tail = matches!(mode, Mode::Bsl(_));
             let real = conv.convert_columns(&mk_arrays(case, 0, n, lay, None, fails))?;
             if n == 0 {
                 return Ok(conv.from_binary(real.try_into_binary()?));
@@ -2045,8 +2049,10 @@ fn compute_rows(conv: &RowConverter, case: &Case, mode: &Mode, lay: &mut Lay, fa
             for j in 0..n {
                 big.push(real.row(j));
             }
-            big.push(real.row(n - 1));
-            big.push(real.row(0));
+            if tail {
+                big.push(real.row(n - 1));
+                big.push(real.row(0));
+            }
             let arr = big.try_into_binary()?;
             Ok(conv.from_binary(arr.slice(*k, n)))
         }
@@ -2171,6 +2177,7 @@ fn mode_name(m: &Mode) -> &'static str {
         Mode::Clr => "clr",
         Mode::Bin(_) => "bin",
         Mode::Bsl(_) => "bsl",
+        Mode::Bsf(_) => "bsf",
         Mode::Psh(_) => "psh",
     }
 }
@@ -2188,12 +2195,23 @@ fn run_case(line: &str) -> (String, Vec<String>, String) {
     for f in &case.fields {
         union_preds(&f.ty, f.desc, &mut xt);
     }
+    // the rows come from `from_binary` of a BinaryArray whose values buffer extends past its last offset
+    if matches!(case.mode, Mode::Bsl(_)) && n > 0 {
+        xt.push("fb:tail".into());
+    }
     let conv = match catch(|| {
         let sf: Vec<SortField> = case.fields.iter().map(|f| SortField::new_with_options(dtype(&f.ty), f.opts())).collect();
         RowConverter::new(sf)
     }) {
         None => return ("PANIC".into(), fails, "stage:new".into()),
-        Some(Err(e)) => return (err_class(&e), fails, "stage:new".into()),
+        Some(Err(e)) => {
+            // `supports_fields` must agree with the constructor
+            let sf: Vec<SortField> = case.fields.iter().map(|f| SortField::new_with_options(dtype(&f.ty), f.opts())).collect();
+            if RowConverter::supports_fields(&sf) {
+                fails.push("api: supports_fields true but RowConverter::new failed".into());
+            }
+            return (err_class(&e), fails, "stage:new".into());
+        }
         Some(Ok(c)) => c,
     };
     let seed = fnv(line);
@@ -2456,6 +2474,16 @@ fn run_case(line: &str) -> (String, Vec<String>, String) {
         let mut r2 = rows.clone();
         r2.push(rows.row(n - 1));
         r2.push(rows.row(0));
+        if r2.num_rows() != n + 2 || r2.row(n).as_ref() != &bytes[n - 1][..] || r2.row(n + 1).as_ref() != &bytes[0][..] {
+            v.push("history-push: pushed rows read back differently".into());
+            return v;
+        }
+        let mut r4 = rows.clone();
+        let one4 = mk_arrays(&case, 0, 1, &mut Lay::plain(), None, &mut v);
+        if conv.append(&mut r4, &one4).is_err() || r4.num_rows() != n + 1 || r4.row(n).as_ref() != &bytes[0][..]
+            || (0..n).any(|i| r4.row(i).as_ref() != &bytes[i][..]) {
+            v.push("history-append: appended row or earlier rows read back differently".into());
+        }
         let one = mk_arrays(&case, 0, 1, &mut Lay::plain(), None, &mut v);
         if let Err(e) = conv.append(&mut r2, &one) {
             v.push(format!("history: append {}", err_class(&e)));
@@ -2505,6 +2533,19 @@ fn run_case(line: &str) -> (String, Vec<String>, String) {
             };
             if conv.convert_columns(&wrong).is_ok() {
                 v.push("misuse: column of a different type accepted".into());
+            }
+        }
+        // rows of another converter (same schema) are refused (documented panic), never mixed in
+        if nf >= 1 {
+            let sf: Vec<SortField> = case.fields.iter().map(|f| SortField::new_with_options(dtype(&f.ty), f.opts())).collect();
+            if let Ok(conv2) = RowConverter::new(sf) {
+                let mut foreign = rows.clone();
+                if catch(|| conv2.append(&mut foreign, &plain)).is_some() {
+                    v.push("misuse: append onto rows of another converter did not panic".into());
+                }
+                if n > 0 && catch(|| conv2.convert_rows(&rows)).is_some() {
+                    v.push("misuse: convert_rows of another converter's rows did not panic".into());
+                }
             }
         }
         if nf >= 2 && n >= 1 {
@@ -2712,7 +2753,8 @@ fn gen_case(g: &mut Gen) -> (String, String) {
         11..=13 => Mode::Sl(1 + g.rng.usize(4)),
         14 => Mode::Clr,
         15..=16 => Mode::Bin(g.rng.usize(n + 1)),
-        17..=18 => Mode::Bsl(g.rng.usize(4)),
+        17 => Mode::Bsl(g.rng.usize(4)),
+        18 => Mode::Bsf(1 + g.rng.usize(4)),
         _ => Mode::Psh(g.rng.usize(n + 1)),
     };
     let mut fields = vec![];
@@ -2725,8 +2767,17 @@ fn gen_case(g: &mut Gen) -> (String, String) {
         };
         fields.push(FieldSpec { ty, desc: g.rng.bool(), nf: g.rng.bool() });
     }
+    make_case(g, fields, n, mode, None)
+}
+
+/// build the case line and tags for a schema, a row count and a mode; `cols` overrides the drawn values
+fn make_case(g: &mut Gen, fields: Vec<FieldSpec>, n: usize, mode: Mode, forced: Option<Vec<Vec<Val>>>) -> (String, String) {
+    let nfields = fields.len();
     let mut cols: Vec<Vec<Val>> = vec![];
-    for f in &fields {
+    if let Some(c) = forced {
+        cols = c;
+    }
+    for f in fields.iter().skip(cols.len()) {
         g.reset();
         let mut col: Vec<Val> = vec![];
         for i in 0..n {
@@ -2759,6 +2810,7 @@ fn gen_case(g: &mut Gen) -> (String, String) {
         Mode::Clr => "clr".to_string(),
         Mode::Bin(k) => format!("bin{}", k),
         Mode::Bsl(k) => format!("bsl{}", k),
+        Mode::Bsf(k) => format!("bsf{}", k),
         Mode::Psh(k) => format!("psh{}", k),
     };
     let line = format!("C11 enc {} {} {}", mode_s, schema, rows);
@@ -2788,12 +2840,103 @@ fn gen_case(g: &mut Gen) -> (String, String) {
     tags.push(match n {
         0 => "n:0".into(),
         1 => "n:1".into(),
-        _ => "n:2+".into(),
+        2..=62 => "n:2+".into(),
+        63..=65 => "n:63-65".into(),
+        _ => "n:66+".into(),
     });
     if n >= 2 && !fields.is_empty() {
         tags.push("nt".into());
     }
     (line, tags.join(" "))
+}
+
+/// A fixed block of boundary cases, identical in every run (its own constant seed):
+/// row counts around the 64-row chunks of `decode_bool` / the validity bit-packing, byte-string
+/// lengths around the inline-view limit (12) and the 8/32-byte blocks with shared prefixes,
+/// and every way of producing rows on one mixed schema under all four options.
+fn dense_block() -> Vec<(String, String)> {
+    let mut g = Gen::new(Rng::new(0xD15E_C11));
+    let mut out = vec![];
+    let leaf = |w: &str| Parser::leaf(w).expect("dense leaf");
+    let opts = [(false, false), (false, true), (true, false), (true, true)];
+    let modes = |i: usize, n: usize| match i % 10 {
+        0 => Mode::One,
+        1 => Mode::App(n / 2),
+        2 => Mode::Each,
+        3 => Mode::Sl(3),
+        4 => Mode::Clr,
+        5 => Mode::Bin(n / 3),
+        6 => Mode::Bsl(2),
+        7 => Mode::Bsf(3),
+        8 => Mode::Psh(n - n / 4),
+        _ => Mode::App(n),
+    };
+    // A. many rows
+    let many: Vec<Ty> = vec![
+        leaf("b"), leaf("i8"), leaf("u64"), leaf("f32"), leaf("utf8"), leaf("binv"), leaf("utf8v"), leaf("fsb3"),
+        leaf("ivdt"), leaf("null"),
+        Ty::Dict("i8".into(), Box::new(leaf("utf8"))),
+        Ty::List(LK::L, Box::new(leaf("b"))),
+        Ty::List(LK::LV, Box::new(leaf("u8"))),
+        Ty::Struct(vec![leaf("b"), leaf("i16")]),
+        Ty::Ree(16, Box::new(leaf("b"))),
+        Ty::Fsl(2, Box::new(leaf("b"))),
+    ];
+    let mut i = 0;
+    for ty in &many {
+        for (oi, (d, nf)) in opts.iter().enumerate() {
+            for n in [63usize, 64, 65, 129] {
+                // not every (type, option, size) triple: rotate the sizes over the options
+                if (oi + n) % 2 == 1 && n != 64 {
+                    continue;
+                }
+                g.reset();
+                let (l, t) = make_case(&mut g, vec![FieldSpec { ty: ty.clone(), desc: *d, nf: *nf }], n, modes(i, n), None);
+                out.push((l, format!("{} dense:rows", t)));
+                i += 1;
+            }
+        }
+    }
+    // B. byte-string lengths with shared prefixes, every kind
+    for w in ["bin", "lbin", "binv", "utf8", "lutf8", "utf8v"] {
+        for (d, nf) in opts {
+            let mut col: Vec<Val> = vec![Val::Null];
+            for len in [0usize, 1, 7, 8, 9, 11, 12, 13, 31, 32, 33, 63, 64, 65, 96, 97] {
+                let base: Vec<u8> = (0..len).map(|j| b'a' + (j % 3) as u8).collect();
+                col.push(Val::Bytes(base.clone()));
+                if len > 0 {
+                    let mut z = base.clone();
+                    *z.last_mut().unwrap() = 0;
+                    col.push(Val::Bytes(z));
+                    if !w.contains("utf8") {
+                        let mut f = base.clone();
+                        *f.last_mut().unwrap() = 0xFF;
+                        col.push(Val::Bytes(f));
+                    }
+                }
+            }
+            let n = col.len();
+            g.reset();
+            let (l, t) = make_case(&mut g, vec![FieldSpec { ty: leaf(w), desc: d, nf }], n, modes(i, n), Some(vec![col]));
+            out.push((l, format!("{} dense:lens", t)));
+            i += 1;
+        }
+    }
+    // C. every way of producing rows, one mixed schema
+    for m in 0..10 {
+        for (d, nf) in opts {
+            let fields = vec![
+                FieldSpec { ty: leaf("i32"), desc: d, nf },
+                FieldSpec { ty: leaf("utf8"), desc: !d, nf },
+                FieldSpec { ty: Ty::List(LK::L, Box::new(leaf("i8"))), desc: d, nf: !nf },
+                FieldSpec { ty: leaf("ivmdn"), desc: d, nf },
+            ];
+            g.reset();
+            let (l, t) = make_case(&mut g, fields, 9, modes(m, 9), None);
+            out.push((l, format!("{} dense:modes", t)));
+        }
+    }
+    out
 }
 
 fn main() {
@@ -2818,6 +2961,9 @@ fn main() {
             record(&mut sink, line, "replay".to_string());
         }
     } else {
+        for (line, tags) in dense_block() {
+            record(&mut sink, line, tags);
+        }
         let mut g = Gen::new(Rng::new(args.seed ^ 0xC11));
         let n = n_cases(&args, 4000, 120000);
         for _ in 0..n {
